@@ -1,6 +1,6 @@
 """C16 — system alignment is rigid and exact; scaling is uniform.
 
-Proof:   coq/C16/{Model,Proofs,Heap,Property}.v (real numbers; the algebraic core of the model is generic over
+Proof:   coq/C16/{Model,Proofs,Proofs_unique,Heap,Heap_proofs,Property,GenProperty}.v (real numbers; the algebraic core of the model is generic over
          a record of field operations and is instantiated with R for the theorems and with Q for evaluation).
 Tie (T): generate() reads the three anchored source files with `ast`, translates the numeric functions into
          Gallina (coq/C16/Gen_Code.v) and extracts the structural facts (loop shapes, optimiser call);
@@ -122,7 +122,7 @@ def _add(a, b):
     return [a[i] + b[i] for i in range(3)]
 
 
-def gen_align_case(rng, max_deg=30.0, noise=None, flip=False, wide=False):
+def gen_align_case(rng, max_deg=30.0, noise=None, flip=False, wide=False, hard=False):
     """A solved system seen from a misaligned frame.  Ground truth lives in the desired frame: origin at 0,
     x-axis samples (a,0,0) a in [0.3,3], plane samples (b,c,0) with |c| >= 0.3 (well conditioned), base stations
     above the floor.  The inputs to align() are the images under the misalignment M (rotation < max_deg, |t| <= 3 m),
@@ -131,14 +131,15 @@ def gen_align_case(rng, max_deg=30.0, noise=None, flip=False, wide=False):
         max_deg, flip = 180.0, rng.random() < 0.5
     if noise is None:
         noise = rng.choice([0.0, 0.0, 0.001, 0.003])
-    ang = math.radians(rng.uniform(0.0, max_deg))
+    # hard: the outer third of the property's range (all known non-convergence witnesses have > 16 degrees)
+    ang = math.radians(rng.uniform(max_deg * 2.0 / 3.0 if hard else 0.0, max_deg))
     u = _unit(rng)
     MR = _rodrigues([u[0] * ang, u[1] * ang, u[2] * ang])
     if flip:      # outside the property's range: exercises the de-flip branches (tie only)
         MR = _mm(MR, rng.choice([[[-1, 0, 0], [0, -1, 0], [0, 0, 1]], [[1, 0, 0], [0, -1, 0], [0, 0, -1]],
                                  [[-1, 0, 0], [0, 1, 0], [0, 0, -1]]]))
     d = _unit(rng)
-    tl = rng.uniform(0.0, 3.0)
+    tl = rng.uniform(2.0 if hard else 0.0, 3.0)
     Mt = [d[0] * tl, d[1] * tl, d[2] * tl]
 
     def nz():
@@ -465,7 +466,8 @@ def check_scale_diag(case):
                 return {'class': 'deck_sensor_table_wrong', 'case': case, 'expected': [list(p) for p in DECK],
                         'observed': pos.tolist()}
             expected = float(D.diagonal_distance)
-            wrong = 'deck_diagonal_constant_wrong'
+            if abs(expected - DECK_DIAG) > 1e-9:
+                wrong = 'deck_diagonal_constant_wrong'
         bs, cf, samples = _diag_objects(case)
         before = _snap([bs, cf])
         bs2, cf2, f = S.scale_diagonals(bs, cf, samples, expected)
@@ -538,8 +540,8 @@ def oracle(ctx, deep=False):
     n_align = ctx.scale(3000, 40000)
     if deep:
         n_align = max(n_align, 12000)
-    for _ in range(n_align):
-        cases.append(gen_align_case(ctx.rng))
+    for i in range(n_align):
+        cases.append(gen_align_case(ctx.rng, hard=(i % 3 == 2)))
     for _ in range(n_align // 5):
         cases.append(gen_align_case(ctx.rng, wide=True))
     for _ in range(ctx.scale(300, 3000)):
@@ -559,7 +561,7 @@ def oracle(ctx, deep=False):
     wide = sum(1 for c in cases if c['kind'] == 'align' and c.get('wide'))
     return {'evaluations': len(cases), 'failures': out, 'distinct_nontrivial': 0,
             'rule': 'align on random layouts (misalignment <= 30 deg / 3 m, 1-4 samples per axis/plane, 1-4 base stations, '
-                    '%d with bounded noise, %d corpus cases first): rigid (1e-9), inputs untouched, flips resolved, equal to '
+                    'a third of them with 20-30 deg and 2-3 m, %d with bounded noise, %d corpus cases first): rigid (1e-9), inputs untouched, flips resolved, equal to '
                     'ground truth / independently converged optimum (1e-5); %d layouts with any misalignment up to 180 deg '
                     'and mirrored: rigid, inputs untouched, flips resolved; scale_fixed_point and scale_diagonals against the '
                     'generating factor; failures per class: %s' % (noisy, n_corpus, wide, seen),
